@@ -482,13 +482,14 @@ func (f *httpFetcher) fetch(ctx context.Context, rs []region, retry bool) (multi
 	// Request to the registry
 	f.urlMu.Lock()
 	url := f.url
+	header := f.header // must be the header set that belongs to this url
 	f.urlMu.Unlock()
 	req, err := http.NewRequestWithContext(ctx, "GET", url, nil)
 	if err != nil {
 		return nil, err
 	}
 	req.Header = http.Header{}
-	maps.Copy(req.Header, f.header)
+	maps.Copy(req.Header, header)
 	var ranges string
 	for _, reg := range requests {
 		ranges += fmt.Sprintf("%d-%d,", reg.b, reg.e)
@@ -555,13 +556,14 @@ func (f *httpFetcher) check() error {
 	}
 	f.urlMu.Lock()
 	url := f.url
+	header := f.header // must be the header set that belongs to this url
 	f.urlMu.Unlock()
 	req, err := http.NewRequestWithContext(ctx, "GET", url, nil)
 	if err != nil {
 		return fmt.Errorf("check failed: failed to make request: %w", err)
 	}
 	req.Header = http.Header{}
-	maps.Copy(req.Header, f.header)
+	maps.Copy(req.Header, header)
 	req.Close = false
 	req.Header.Set("Range", "bytes=0-1")
 	res, err := f.tr.RoundTrip(req)
